@@ -298,7 +298,7 @@ pub fn gen_world(rng: &mut Rng, prop: &str) -> WorldCfg {
         }
     };
     let n_vamms_hint = vamms.len();
-    let prefix_vamms = kind == WorldKind::Standard && n_vamms_hint >= 2 && matches!(prop, "C10" | "C03") && rng.chance(1, 4);
+    let prefix_vamms = kind == WorldKind::Standard && n_vamms_hint >= 2 && matches!(prop, "C10" | "C03" | "C16") && rng.chance(1, 4);
     WorldCfg {
         kind,
         coll: coll.clone(),
